@@ -86,10 +86,16 @@ func c15Handler(raw json.RawMessage) (any, error) {
 		return out, nil
 	}
 	if err != nil {
+		if arg.UID != 0 && strings.Contains(err.Error(), "permission denied") {
+			// an unprivileged process cannot finish below a directory it was told to make
+			// unsearchable/unwritable: failing is the honest answer (no verdict)
+			out.Undefined = "environment: permission denied for uid " + fmt.Sprint(arg.UID)
+			return out, nil
+		}
 		out.Mismatch = append(out.Mismatch, "unpack failed on a well-formed archive with a prescribed result: "+err.Error())
 		return out, nil
 	}
-	got := fsx.Tree(dst)
+	got := observeTree(dst)
 	// unreadable files (mode 0000 as non-root): make readable after recording perms
 	for rel, n := range got {
 		if n.Type == "file" && n.Sha == "unreadable" {
@@ -151,6 +157,37 @@ func c15Handler(raw json.RawMessage) (any, error) {
 	return out, nil
 }
 
+// observeTree is fsx.Tree for an unprivileged observer: a directory without
+// owner rwx is recorded first and then opened up (chmod changes ctime, not
+// mtime or the recorded mode) so that what lies below can be seen.
+func observeTree(root string) map[string]fsx.Node {
+	out := map[string]fsx.Node{}
+	var walk func(dir, rel string)
+	walk = func(dir, rel string) {
+		ents, err := os.ReadDir(dir)
+		if err != nil {
+			return
+		}
+		for _, e := range ents {
+			p := filepath.Join(dir, e.Name())
+			r := e.Name()
+			if rel != "" {
+				r = rel + "/" + e.Name()
+			}
+			one := fsx.Tree1(p)
+			out[r] = one
+			if one.Type == "dir" {
+				if os.Getuid() != 0 && one.Perm&0700 != 0700 {
+					os.Chmod(p, 0700)
+				}
+				walk(p, r)
+			}
+		}
+	}
+	walk(root, "")
+	return out
+}
+
 func init() { core.Register("c15", c15Handler) }
 
 func c15Alphabet(core bool) []tarx.Entry {
@@ -176,6 +213,7 @@ func c15Alphabet(core bool) []tarx.Entry {
 			tarx.Entry{Name: n, Kind: "dir"},
 			tarx.Entry{Name: n, Kind: "dir", Mode: 0555},
 			tarx.Entry{Name: n, Kind: "dir", Mode: 0700},
+			tarx.Entry{Name: n, Kind: "dir", Mode: 0644}, // no search permission: a non-root Unpack may legitimately fail, but must not "succeed" wrongly
 			tarx.Entry{Name: n, Kind: "dir", MTime: T2},
 		)
 	}
